@@ -13,7 +13,7 @@ import (
 
 func init() {
 	register(&Prop{
-		ID: "C14",
+		ID:   "C14",
 		Rule: "even cases (oracle A, metamorphic): random G-markup pages made of three separable fragment sets — OpenGraph meta tags (presence of each of the 4 required properties, og:type article/profile/website, optional fields, several images, prefix declarations), schema.org microdata (Article/NewsArticle/BlogPosting/TechArticle/unsupported item, nested Person/Organization, ImageObject items, associatedMedia, rel=author, up to 2 items), IE Reading View (meta title/copyright/displaydate, byline-name, dateline, publisher attribute, captioned/sized images) — plus optional IE_RM_OFF, shuffled; the page runs four times (all sources, OG only, schema.org only, IE only) and MarkupInfo(all) must equal the field-wise first non-empty of (og, so, ie), the first non-empty image list, and the article record of the first source that has one; empty on opt-out. Odd cases (oracle B, by construction): canonical pages enumerating 16 required-property subsets x 8 source-presence subsets x 4 og:type values x 3 opt-out states, with every value a unique token so that the expected MarkupInfo is known without running the parsers in isolation. Non-trivial = a page with at least one source; distinct = distinct (source presence, required-property mask, og:type, opt-out, article branch).",
 		Assumptions: []string{
 			"oracle A trusts each source parser in isolation; oracle B trusts the harness' model of what each well-formed source provides",
